@@ -115,4 +115,27 @@ theorem randint_surjective (lo hi r : Int) (h1 : lo ≤ r) (h2 : r ≤ hi) :
 /-- non-vacuity: 5 x 1 torus, a spiral is drawn -/
 example : torusPath ⟨0, 0, 0⟩ ⟨3, 0, 0⟩ 5 1 4 0 0 3 3 1 = .ok ⟨-1, 0, 1⟩ := by rfl
 
+/-- **Longest dimension first**, for every outcome of the three `random.random()` draws (i.e. every
+legal dimension order, ties included), any start, with or without wrap-around on either axis:
+the call returns (no KeyError) a path of exactly `|x|+|y|+|z|` hops in which every hop leads from the
+previous chip through the link it is labelled with, ending at `start + vector` (modulo width/height). -/
+theorem ldf_walk (v : V3) (start : P2) (w h : Option Int) (den k0 k1 k2 : Nat)
+    (h0 : k0 < den) (h1 : k1 < den) (h2 : k2 < den) :
+    ∃ path, ldf v start w h den k0 k1 k2 = .ok path ∧ ldfOk v start w h path = true :=
+  ldf_ok v start w h den k0 k1 k2 h0 h1 h2
+
+/-- what `ldfOk` means: a walk of the graph with `|x|+|y|+|z|` hops whose end is congruent to start + vector -/
+theorem ldfOk_meaning (v : V3) (start : P2) (w h : Option Int) (path : List (Nat × P2))
+    (hok : ldfOk v start w h path = true) :
+    Reach w h path.length start (lastPos start path) ∧ (path.length : Int) = absSum v ∧
+    congr? (lastPos start path).1 (start.1 + v.x - v.z) w = true ∧
+    congr? (lastPos start path).2 (start.2 + v.y - v.z) h = true := by
+  simp only [ldfOk, Bool.and_eq_true, beq_iff_eq] at hok
+  obtain ⟨⟨⟨h1, h2⟩, h3⟩, h4⟩ := hok
+  exact ⟨walkOk_reach w h start path h1, h2, h3, h4⟩
+
+/-- non-vacuity: a tie between two dimensions on a 3 x 3 torus, wrapping on both axes -/
+example : ldf ⟨2, -2, 0⟩ (2, 0) (some 3) (some 3) 2 1 1 0 =
+    .ok [(0, (0, 0)), (0, (1, 0)), (5, (1, 2)), (5, (1, 1))] := by rfl
+
 end Rig.C11
